@@ -85,50 +85,56 @@ Lemma as_dict_val t valid ru pid ob l k ob' ru' :
   as_dict t valid ru pid ob l = (Val k, ob', ru') ->
   attrs_valid valid l = true /\ k = spec_keys valid l.
 Proof.
-  unfold as_dict. rewrite existsb_invalid.
+  unfold as_dict. destruct (zmem BADTYPE l); [discriminate|]. rewrite existsb_invalid.
   destruct (attrs_valid valid l); cbn [negb]; [|discriminate].
   intros H. split; [reflexivity|]. unfold spec_keys.
   destruct (zmem PPID _).
-  - destruct (o_gone ob || o_reused ob); [discriminate|].
+  - destruct (explicit_ni l); [discriminate|].
+    destruct (o_gone ob || o_reused ob); [discriminate|].
     destruct (_ && negb (alive t pid)); [discriminate|].
     destruct (is_running_obj t ru pid ob) as [[r ob1] ru1]. destruct r; inversion H; reflexivity.
-  - destruct (_ && negb (alive t pid)); inversion H; reflexivity.
+  - destruct (_ && negb (alive t pid)); [discriminate|]. destruct (explicit_ni l); inversion H; reflexivity.
 Qed.
 
 Lemma as_dict_exc t valid ru pid ob l e ob' ru' :
   as_dict t valid ru pid ob l = (Exc e, ob', ru') ->
-  e = NoSuchProcess \/ (e = ValueError /\ attrs_valid valid l = false).
+  e = NoSuchProcess \/ exc_reason valid l e.
 Proof.
-  unfold as_dict. rewrite existsb_invalid.
+  unfold as_dict, exc_reason. destruct (zmem BADTYPE l) eqn:Eb.
+  { intros H. inversion H. right. left. now split. }
+  rewrite existsb_invalid.
   destruct (attrs_valid valid l); cbn [negb].
-  - intros H. left. destruct (zmem PPID _).
-    + destruct (o_gone ob || o_reused ob); [inversion H; reflexivity|].
+  - intros H. destruct (zmem PPID _).
+    + destruct (explicit_ni l); [discriminate|].
+      destruct (o_gone ob || o_reused ob); [inversion H; now left|].
       destruct (_ && negb (alive t pid)); [discriminate|].
-      destruct (is_running_obj t ru pid ob) as [[r ob1] ru1]. destruct r; inversion H; reflexivity.
-    + destruct (_ && negb (alive t pid)); inversion H; reflexivity.
-  - intros H. inversion H. right. split; reflexivity.
+      destruct (is_running_obj t ru pid ob) as [[r ob1] ru1]. destruct r; inversion H; now left.
+    + destruct (_ && negb (alive t pid)); [inversion H; now left|].
+      destruct (explicit_ni l) eqn:En; inversion H. right. right. right. now split.
+  - intros H. inversion H. right. right. left. now split.
 Qed.
 
 Lemma as_dict_nsp t valid ru pid ob l ob' ru' :
   as_dict t valid ru pid ob l = (Exc NoSuchProcess, ob', ru') ->
   alive t pid = false \/ req_ppid valid (Some l) = true.
 Proof.
-  unfold as_dict, req_ppid. rewrite existsb_invalid.
+  unfold as_dict, req_ppid. destruct (zmem BADTYPE l); [discriminate|]. rewrite existsb_invalid.
   destruct (attrs_valid valid l); cbn [negb]; [|discriminate].
   destruct (zmem PPID _); [intros _; now right|].
   destruct (alive t pid); [|intros _; now left].
-  rewrite andb_false_r. discriminate.
+  rewrite andb_false_r. destruct (explicit_ni l); discriminate.
 Qed.
 
 Lemma as_dict_fresh t valid ru pid k l ob' ru' :
   find_proc t pid = Some k ->
   as_dict t valid ru pid (new_obj pid (k_start k)) l <> (Exc NoSuchProcess, ob', ru').
 Proof.
-  intros Hf. unfold as_dict. rewrite existsb_invalid.
+  intros Hf. unfold as_dict. destruct (zmem BADTYPE l); [discriminate|]. rewrite existsb_invalid.
   destruct (attrs_valid valid l); cbn [negb]; [|discriminate].
   assert (Ha : alive t pid = true) by (unfold alive; now rewrite Hf).
   rewrite Ha. cbn [negb]. rewrite andb_false_r.
-  destruct (zmem PPID _); [|discriminate].
+  destruct (zmem PPID _); [|destruct (explicit_ni l); discriminate].
+  destruct (explicit_ni l); [discriminate|].
   cbn [new_obj o_gone o_reused orb]. unfold is_running_obj. cbn [new_obj o_gone o_reused orb o_start].
   rewrite Hf. rewrite Z.eqb_refl. discriminate.
 Qed.
@@ -300,8 +306,8 @@ Definition loop_post (valid : list Z) (t : list kproc) (fr : frame) (V : list Z)
   match r with
   | LYield x' rest' p o i => J valid t fr V (l_pm x') rest' ((p, o, i) :: Y) (l_n x') /\ (n <= l_n x')%nat
   | LStop x' => J valid t fr V (l_pm x') [] Y (l_n x') /\ (n <= l_n x')%nat
-  | LExc x' e => Jfin valid fr (l_pm x') Y /\ (n <= l_n x')%nat /\ e = ValueError
-                 /\ exists l, f_attrs fr = Some l /\ attrs_valid valid l = false
+  | LExc x' e => Jfin valid fr (l_pm x') Y /\ (n <= l_n x')%nat
+                 /\ exists l, f_attrs fr = Some l /\ exc_reason valid l e
   | LOom x' => (n <= l_n x')%nat
   end.
 
@@ -333,7 +339,7 @@ Proof.
         destruct r as [keys|e|].
         -- cbn [loop_post l_pm l_n]. split; [|lia].
            apply J_yield_cached; [exact HJ|]. rewrite Ea. destruct (as_dict_val _ _ _ _ _ _ _ _ _ Ead) as [Hv Hk]; subst keys; now split.
-        -- destruct (as_dict_exc _ _ _ _ _ _ _ _ _ Ead) as [He|[He Hbad]]; subst e.
+        -- destruct (as_dict_exc _ _ _ _ _ _ _ _ _ Ead) as [He|Hbad]; [subst e|].
            ++ pose proof (as_dict_nsp _ _ _ _ _ _ _ _ Ead) as Hwhy.
               specialize (IH {| l_pm := ddel pid (l_pm x); l_hp := upd_heap (l_hp x) o ob'; l_n := l_n x; l_ru := ru' |} Y).
               cbn [l_pm l_n] in IH. apply IH.
@@ -341,8 +347,10 @@ Proof.
               destruct Hwhy as [Hdead|Hpp].
               ** left. destruct (j_tbl _ _ _ _ _ _ _ _ HJ pid HL) as [Ha|Hv]; [congruence|exact Hv].
               ** right. split; [now exists o|]. right. now rewrite Ea.
-           ++ cbn [loop_post l_pm l_n]. split; [exact (J_Jfin _ _ _ _ _ _ _ _ HJ)|].
-              split; [lia|]. split; [reflexivity|]. exists l. now split.
+           ++ assert (Hne : e <> NoSuchProcess).
+              { destruct Hbad as [[-> _]|[[-> _]|[-> _]]]; discriminate. }
+              destruct e; try contradiction; (cbn [loop_post l_pm l_n]; split; [exact (J_Jfin _ _ _ _ _ _ _ _ HJ)|];
+                split; [lia|]; exists l; now split).
         -- cbn [loop_post]. lia.
       * cbn [loop_post l_pm l_n]. split; [|lia].
         apply J_yield_cached; [exact HJ|]. now rewrite Ea.
@@ -354,10 +362,12 @@ Proof.
            destruct r as [keys|e|].
            ++ cbn [loop_post l_pm l_n]. split; [|lia].
               apply (J_yield_new _ _ _ _ _ _ po); [exact HJ|]. rewrite Ea. destruct (as_dict_val _ _ _ _ _ _ _ _ _ Ead) as [Hv Hk]; subst keys; now split.
-           ++ destruct (as_dict_exc _ _ _ _ _ _ _ _ _ Ead) as [He|[He Hbad]]; subst e.
+           ++ destruct (as_dict_exc _ _ _ _ _ _ _ _ _ Ead) as [He|Hbad]; [subst e|].
               ** exfalso. exact (as_dict_fresh _ _ _ _ _ _ _ _ Ef Ead).
-              ** cbn [loop_post l_pm l_n]. split; [exact (Jfin_new _ _ _ _ _ _ _ _ _ _ HJ)|].
-                 split; [lia|]. split; [reflexivity|]. exists l. now split.
+              ** assert (Hne : e <> NoSuchProcess).
+                 { destruct Hbad as [[-> _]|[[-> _]|[-> _]]]; discriminate. }
+                 destruct e; try contradiction; (cbn [loop_post l_pm l_n]; split; [exact (Jfin_new _ _ _ _ _ _ _ _ _ _ HJ)|];
+                   split; [lia|]; exists l; now split).
            ++ cbn [loop_post l_n]. lia.
         -- cbn [loop_post l_pm l_n]. split; [|lia].
            apply (J_yield_new _ _ _ _ _ _ po); [exact HJ|]. now rewrite Ea.
